@@ -183,6 +183,9 @@ func inputs(c *codec, tier string, yield func([]byte) bool) {
 	if c.name == "winbox.MessageAuth" {
 		hi = 520
 	}
+	if c.name == "openvpn.MessageAuth" && hi < l4openvpn.MessageAuthBytesMax+3 {
+		hi = l4openvpn.MessageAuthBytesMax + 3 // up to and beyond the largest HMAC
+	}
 	pat := func(n int, k int) []byte {
 		b := make([]byte, n)
 		for i := range b {
@@ -261,6 +264,32 @@ func inputs(c *codec, tier string, yield func([]byte) bool) {
 						}
 					}
 				}
+			}
+		}
+	}
+	// OpenVPN wrapped client keys of every length the format allows (and one more either side),
+	// alone and at the end of a tls-crypt-v2 hard reset: 32 bytes of HMAC, the encrypted part,
+	// the total length in the last two bytes
+	if c.name == "openvpn.WrappedKey" || c.name == "openvpn.MessageCrypt2" {
+		for n := l4openvpn.WrappedKeyBytesMin - 1; n <= l4openvpn.WrappedKeyBytesMax+1; n++ {
+			wk := make([]byte, n)
+			for i := range wk {
+				wk[i] = byte(0x30 + i%71)
+			}
+			wk[n-2], wk[n-1] = byte(n>>8), byte(n)
+			b := wk
+			if c.name == "openvpn.MessageCrypt2" {
+				b = append([]byte{l4openvpn.OpcodeControlHardResetClientV3 << 3}, make([]byte, l4openvpn.MessageCryptBytesTotalHL)...)
+				for i := 1; i < len(b); i++ {
+					b[i] = byte(0x80 + i)
+				}
+				b = append(b, wk...)
+			}
+			if n >= l4openvpn.WrappedKeyBytesMin && n <= l4openvpn.WrappedKeyBytesMax {
+				mustAccept[string(b)] = true
+			}
+			if !emit(b) {
+				return
 			}
 		}
 	}
